@@ -28,7 +28,7 @@ from common import coqrun, enc
 
 ID = "C10"
 PROP_FILE = "props/C10.v"
-MODEL_TARGETS = ["theories/Power.vo"]      # the tie needs only the model, also when a proof breaks
+MODEL_TARGETS = ["theories/Power.vo", "theories/Tables_C10.vo"]      # the tie needs only the model, also when a proof breaks
 THEOREMS = ["C10_pipeline", "C10_values", "C10_bounds", "C10_time_order", "C10_energy", "C10_energy_wrap",
             "C10_equal_readings_zero"]
 ALLOWED_AXIOMS = []
